@@ -264,6 +264,14 @@ class MediaFile(ModelMixin["MediaFile"], Base):
                 details='Insufficient data to calculate bitrate')
             session.add(err)
             return False
+        if rep.codecs is None or rep.track_id is None:
+            # a damaged file can have fragments but no usable sample description
+            err = MediaFileError(
+                media_file=self,
+                reason=ErrorReason.NO_FRAGMENTS,
+                details='Failed to parse MP4 file: no codec information')
+            session.add(err)
+            return False
         self.representation = rep
         self.rep = rep.toJSON(pure=True)
         self.track_id = rep.track_id
